@@ -32,6 +32,18 @@ func randDir(r *rand.Rand) v3 {
 	}
 }
 
+// onAxis returns a + t·(b-a), t ∈ [-0.5, 1.5], computed the naive way; half of
+// the draws use a dyadic t (k/8), which is exactly on the axis when a and b lie on
+// a dyadic grid.
+func onAxis(r *rand.Rand, a, b v3) v3 {
+	t := -0.5 + 2*r.Float64()
+	if r.Intn(2) == 0 {
+		t = float64(r.Intn(17)-4) / 8
+	}
+	ab := b.sub(a)
+	return v3{a[0] + t*ab[0], a[1] + t*ab[1], a[2] + t*ab[2]}
+}
+
 // perp returns a unit vector perpendicular to the unit vector u.
 func perp(r *rand.Rand, u v3) v3 {
 	for {
@@ -197,6 +209,13 @@ func segDistance(a, b, p v3) float64 {
 }
 func (c capsule) kind() string { return "capsule" }
 func (c capsule) regime() string {
+	l := c.a.dist(c.b)
+	switch {
+	case l < 1e-3*c.r:
+		return "length<<radius"
+	case c.r < 1e-3*l:
+		return "radius<<length"
+	}
 	if c.r > c.a.dist(c.b) {
 		return "fat"
 	}
@@ -228,10 +247,13 @@ func (c capsule) special(r *rand.Rand) v3 {
 	case 3: // on the axis line beyond the ends
 		return c.a.add(u.mul(l * (3*r.Float64() - 1)))
 	}
-	if r.Intn(2) == 0 {
+	switch r.Intn(3) {
+	case 0:
 		return c.a
+	case 1:
+		return c.b
 	}
-	return c.b
+	return onAxis(r, c.a, c.b)
 }
 func (c capsule) params() map[string]any {
 	return map[string]any{"start": c.a, "end": c.b, "radius": c.r}
@@ -265,6 +287,9 @@ func (c cone) regime() string {
 	}
 	if math.Min(c.r1, c.r2) > l {
 		reg += ",radii>length"
+	}
+	if math.Max(c.r1, c.r2) < 1e-2*l {
+		reg += ",radii<<length"
 	}
 	return reg
 }
@@ -330,6 +355,9 @@ func (c cone) special(r *rand.Rand) v3 {
 	case 3: // plane through b (sign(z) switches)
 		return c.b.add(w.mul(lam))
 	case 4: // on the axis
+		if r.Intn(3) > 0 {
+			return onAxis(r, c.a, c.b)
+		}
 		return c.a.add(u.mul(l * (3*r.Float64() - 1)))
 	case 5: // the same borders, continued to the other side of the axis (inside the solid)
 		return c.a.add(nrm.mul(-lam * 0.3))
@@ -421,6 +449,7 @@ func (c rcyl) params() map[string]any {
 type plane struct {
 	pos, n v3 // n unit
 	height float64
+	L      float64 // length scale of the case (a plane has no size of its own)
 }
 
 func (pl plane) kind() string   { return "plane" }
@@ -434,7 +463,7 @@ func (pl plane) margin(p v3) float64 {
 }
 func (pl plane) euclid() bool    { return true }
 func (pl plane) centre() v3      { return pl.pos.sub(pl.n.mul(pl.height)) }
-func (pl plane) radius() float64 { return math.Max(1, math.Abs(pl.height)) }
+func (pl plane) radius() float64 { return math.Max(pl.L, math.Abs(pl.height)) }
 func (pl plane) mag() float64    { return math.Max(pl.pos.maxAbs(), math.Abs(pl.height)) }
 func (pl plane) special(r *rand.Rand) v3 {
 	return pl.centre().add(perp(r, pl.n).mul(pl.radius() * 3 * r.Float64()))
